@@ -2095,6 +2095,8 @@ def fact_holds(fc, env, variants=None):
     if k == "cmp":
         a, b = ev(fc[2], env), ev(fc[3], env)
         return {"Eq": a == b, "Ne": a != b, "Lt": a < b, "Le": a <= b, "Gt": a > b, "Ge": a >= b}[fc[1]]
+    if k == "const" and len(fc) >= 3 and isinstance(fc[1], (bool, int)) and isinstance(fc[2], bool):
+        return bool(fc[1]) == fc[2]            # a switch on a value known on this path (after threading): the edge is taken or not
     if k == "inteq":
         return ev(fc[1], env) == fc[2]
     if k == "intne":
